@@ -51,6 +51,9 @@ mod heads;
 mod keys;
 mod ranger;
 
+#[cfg(iroh_docs_verif)]
+pub mod verif;
+
 #[doc(inline)]
 pub use net::ALPN;
 
